@@ -10,6 +10,7 @@
 #include <string.h>
 #include <math.h>
 #ifdef __cplusplus
+#define _Bool bool
 extern "C" {
 #endif
 int vf_exc; void* vf_exc_obj; int vf_exc_sel;
